@@ -139,7 +139,11 @@ func TestC17(t *testing.T) {
 		"instantiated second provider (external first / sibling first), real start-up (topology.json -> LoadConfig -> NewConnector " +
 		"-> ConfigDataplane), real start-up with an owned interface on the second provider} x sibling sockets {own connected " +
 		"socket, shared internal socket}; one case per socket the router opens; non-trivial = receive != send (a swap is " +
-		"observable); S = {0,1,4096,2^20} quick, 9 values thorough. Second half: (receive, send) in T x T, T = {0, 20000, 262144} " +
+		"observable); S = {0,1,4096,2^20} quick, 9 values thorough. From the configuration text: (receive, send) in (S + {key absent})^2 x " +
+		"spelling of the TOML file {[router] table, [router] table send-first with digit groups, dotted keys with every other option left to its default, " +
+		"inline table with hexadecimal values, the router's printed sample edited, the configuration dump of a running router}, keys as documented in " +
+		"doc/manuals/router.rst -> private/config.LoadFile -> InitDefaults -> Validate -> NewConnector(cfg.Router, cfg.Features) -> LoadConfig -> " +
+		"Configure, one case per socket opened; reverse: the printed sample and the dump of Config{receive, send} show each value under its documented key. Second half: (receive, send) in T x T, T = {0, 20000, 262144} " +
 		"(thorough 6 values, all within net.core.{r,w}mem_max) x sibling sockets {connected, shared} x internal link on {127.0.0.1, " +
 		"::1}: a data plane on loopback addresses opens REAL sockets through conn.New (internal unconnected, external IPv4 + " +
 		"IPv6 connected, sibling connected); SO_RCVBUF / SO_SNDBUF are read back with getsockopt; one case per socket"
@@ -271,12 +275,18 @@ func TestC17(t *testing.T) {
 			r.HarnessError("no socket observed for a provider created by %s", s)
 		}
 	}
+	c17FromText(r, dir)
 	c17RealSockets(r)
 	r.Extra["configurations"] = nCfg
 	r.Extra["sizes"] = sizes
 	r.Extra["sockets_per_factory_call_site"] = sitesSeen
 	r.Extra["lazy_factory_calls_seen"] = len(c17Alt.args)
 	r.Assumptions = []string{
+		"configuration text: the key names are taken from doc/manuals/router.rst (router.receive_buffer_size, router.send_buffer_size; the check refuses to run if the " +
+			"manual no longer documents them); the file is loaded with the functions private/app/launcher uses (config.LoadFile, InitDefaults, Validate); the two lines of " +
+			"router/cmd/router/main.go that map it to the data plane (router.NewConnector(globalCfg.Router, globalCfg.Features); control.LoadConfig(id, config_dir) + " +
+			"IACtx.Configure) cannot be reached without starting the process and are replicated by rtr.BuildStartup; an absent key means the documented default 0; a " +
+			"documented spelling that the loader rejects is a violation (the router would not start)",
 		"two observation points: the conn.Config handed to the connection opener for every construction path, and the socket " +
 			"options of real loopback sockets opened through the real conn.New for a loopback data plane",
 		"Linux reports 2 x the requested buffer size for sizes between the kernel minimum and net.core.{r,w}mem_max (sizes are " +
